@@ -262,6 +262,17 @@ var advTemplates = []advTemplate{
 	{"live:format-utf8-select", func(g *core.Tape) string {
 		return liveLoop(`local _ = string.format("%5d%s%q", 1, "a", "b") .. utf8.char(65, 0x10FFFF) .. select("#", 1, 2, 3)`)
 	}},
+	{"live:varargs-held-by-frames", func(g *core.Tape) string {
+		// every frame of the recursion holds its own copy of the argument list (16 bytes a value)
+		k := []string{"100", "1000", "10000"}[g.Choose(3)]
+		return `local function f(n, d, ...) if n == 0 then emit("len", d * select("#", ...) * 16) return 0 end return 1 + f(n - 1, d, ...) end local s = ("x"):rep(` + k + `) for d = 10, 1e9, 40 do f(d, d, string.byte(s, 1, -1)) end`
+	}},
+	{"live:varargs-held-by-tables", func(g *core.Tape) string {
+		return `local keep, n = {}, 0 local s = ("x"):rep(500) while true do n = n + 1 keep[n] = table.pack(string.byte(s, 1, -1)) if n % 10 == 0 then emit("len", n * 500 * 16) end end`
+	}},
+	{"live:varargs-held-by-coroutines", func(g *core.Tape) string {
+		return `local keep, n = {}, 0 local s = ("x"):rep(300) while true do n = n + 1 local co = coroutine.wrap(function(...) coroutine.yield() return ... end) co(string.byte(s, 1, -1)) keep[n] = co if n % 10 == 0 then emit("len", n * 300 * 16) end end`
+	}},
 	{"live:varargs-and-closures", func(g *core.Tape) string {
 		return liveLoop(`local function f(...) local a, b = ... return function() return a, b end end f(1, 2, 3, 4, 5)() (function(...) return select(2, ...) end)(1, 2, 3)`)
 	}},
